@@ -22,7 +22,7 @@ ASSUMPTIONS = [
 HOSTILE = ["\t", '"', "\\\\", "\\\"", "\u00e9", "\U0001f600", "\x01", "\x1f", "\x7f", "\u00a0", "'", "\x0b", "\x0c",
            "\x08", "\x1b", "\\\\n", "\\\\u0041", "a", "b c", "Z", " ", "\u2028", "\x02\x03", "}", "]", ",", ":"]
 
-INPUT_LINES = ["1", "2", "3", "9", "0", "99999999999999999999999", "-1", "+1", " 2 ", "help", "HELP", "Help ",
+INPUT_LINES = ["1", "1", "1", "2", "3", "9", "0", "99999999999999999999999", "-1", "+1", " 2 ", "help", "HELP", "Help ",
                "-> middle", "->  ending", "-> nowhere", '-> bad"path', "-> back\\slash", "-> ctl\x01x",
                "-> \u00e9\U0001f600", "-> a b", "->middle", "", "   ", "abc", "1 2", "1.0", "\u212a", "QU\u0130T",
                "\uff11", "-> middle.0", "-> 'q'", "-> \x7f\x1b[0m", "1", "1", "2", "-> \"", "-> \\", "\t1\t", "-> }]"]
@@ -38,8 +38,8 @@ def hostile(rng):
 def gen_story(rng, k):
     h = lambda: hostile(rng)
     if k % 7 == 3:
-        # runs out of content after a choice: a runtime error delivered through the handler -> issues line
-        return f"Line {h()}\n* [only {h()}] picked {h()}\n"
+        # division by zero after a choice: a runtime error delivered through the handler -> issues line
+        return f"VAR x = 0\nLine {h()}\n* [only {h()}] picked {{1/x}} {h()}\nmore {h()}\n* [next] -> END\n"
     if k % 11 == 5:
         return "ctl " + "".join(chr(c) for c in range(1, 32) if c not in (10, 13)) + " end\n* [c] -> END\n"
     ct = lambda: (" # ct" + h()) if rng.random() < 0.4 else ""
@@ -64,7 +64,7 @@ def gen_inputs(rng):
 
 
 BAD_SOURCES = ["-> nowhere\n", "{ unclosed\n", "VAR x = \n", "Line\n* [unclosed\n", "VAR x = 3000000000\n{x}\n",
-               "=== knot\nText\n=== knot\nAgain\n", "~ undefined_fn()\n", "INCLUDE missing_file.ink\nText\n",
+               "=== knot\nText\n=== knot\nAgain\n", "~ undefined_fn()\n",
                "VAR s = \"a\\\"b\"\n{s}\n"]
 
 
@@ -380,7 +380,7 @@ def check_compile(ctx, rink, pdrive, n):
     srcs = [gen_story(rng, k) for k in range(n)] + BAD_SOURCES
     corp = [open(s, encoding="utf-8-sig").read() for s in common.corpus_ink()[:: (6 if ctx.quick() else 1)]]
     srcs += [s for s in corp if not common.has_include(s)]
-    lib = playdrive(pdrive, [dict(id=i, ink=s, inputs=[]) for i, s in enumerate(srcs)])
+    lib = playdrive(pdrive, [dict(id=i, ink=s, inputs=[], compile_only=True) for i, s in enumerate(srcs)])
     tmp = tempfile.mkdtemp(prefix="c20c_", dir=vlib.SCRATCH)
 
     def one(item):
@@ -469,7 +469,7 @@ def run(ctx):
     ctx.coverage.update(dict(
         evaluations=2 * stats["sessions"] + cstats["compiled"], distinct_nontrivial=stats["messages"],
         rule="generated ink stories whose text, tags, choice text and choice tags contain quotes, backslashes, tabs, "
-             "control and non-ASCII characters (plus a story that runs out of content -> runtime error -> issues line) "
+             "control and non-ASCII characters (plus a story that divides by zero -> runtime error -> issues line) "
              "x scripted stdin (valid / out-of-range / signed / padded numbers, help, quit, blank lines, `-> path` to "
              "known and unknown paths with hostile characters, early EOF) x {-j, plain} x {.ink -p, .ink.json} x {-k}; "
              "the real rinklecate binary vs the same protocol on the library (playdrive) with inputs classified by the "
@@ -503,7 +503,7 @@ def replay(ctx, payload):
     if r.get("compile_mode"):
         tmp = tempfile.mkdtemp(prefix="c20r_", dir=vlib.SCRATCH)
         open(os.path.join(tmp, "story.ink"), "w", encoding="utf-8").write(r["ink"])
-        lib = playdrive(pdrive, [dict(id=0, ink=r["ink"], inputs=[])])[0]
+        lib = playdrive(pdrive, [dict(id=0, ink=r["ink"], inputs=[], compile_only=True)])[0]
         rr = run_bin(rink, ["-o", "out.json", "story.ink"], "", tmp)
         outp = os.path.join(tmp, "out.json")
         written = open(outp, encoding="utf-8").read() if os.path.exists(outp) else None
